@@ -5,8 +5,9 @@ import PnVerif.Spec.SizeRules
 
     D fmt size
         -> <defDim err> <DimOK 0|1>
-    T fmt beginVar vminfree ralign nvars { xsz isrec nd len.. }
-        -> dv=<defVar err per variable> e=<enddef err> sr=<SizeRules 0|1> br=<BeginRule 0|1>
+    T fmt beginVar vminfree ralign nvars { xsz isrec nd len.. }      (original NC_begins)
+    G fmt beginVar vminfree ralign nvars { xsz isrec nd len.. }      (repaired NC_begins, C18-begins-overflow.diff)
+        -> dv=<defVar err per variable> e=<enddef err> sr=<SizeRules 0|1> br=<BeginRule 0|1> er=<EndRule 0|1>
            b=<begin per accepted variable, definition order> brec=<begin_rec> rs=<recsize>
            vs=<vsize field per accepted variable> len=<varp->len per accepted variable>
 
@@ -45,25 +46,26 @@ def mergeBegins : List Var → List Nat → List Nat → List Nat
       | b :: fb' => b :: mergeBegins vs fb' rb
       | [] => []
 
-def doT (fmt bv vm ra nv : Nat) (l : List String) : String :=
+def doT (guarded : Bool) (fmt bv vm ra nv : Nat) (l : List String) : String :=
   match parseVars nv l with
   | none => "bad-op"
   | some vars =>
     let dv := vars.map (fun v => (defVar v).1)
     let ok := vars.filter (fun v => (defVar v).1 == 0)
     let lay : Lay := { beginVar := bv, vMinfree := vm, rAlign := ra }
-    let r := enddef fmt lay ok
+    let r := if guarded then enddefG fmt lay ok else enddef fmt lay ok
     let sr : Nat := if decide (SizeRules fmt ok) then 1 else 0
     let brOK : Bool :=
       fmt != 1 ||
       ((List.range (fixedVars ok).length).all (fun k => fixedBegin lay ok k < 2147483648) &&
        (List.range (recVars ok).length).all (fun k => recBegin lay ok k < 2147483648))
     let br : Nat := if brOK then 1 else 0
+    let er : Nat := if recSection lay ok + sumLens (recVars ok) ≤ 9223372036854775807 then 1 else 0
     let tail := match r.2 with
       | none => "b=- brec=- rs=-"
       | some b =>
         s!"b={commaList ((mergeBegins ok b.fixed b.recs).map toString)} brec={b.beginRec} rs={b.recsize}"
-    s!"dv={commaList (dv.map toString)} e={r.1} sr={sr} br={br} {tail} " ++
+    s!"dv={commaList (dv.map toString)} e={r.1} sr={sr} br={br} {tail} er={er} " ++
     s!"vs={commaList (ok.map (fun v => toString (vsizeField fmt (varLen v))))} len={commaList (ok.map (fun v => toString (varLen v)))}"
 
 def step (line : String) : String :=
@@ -76,7 +78,11 @@ def step (line : String) : String :=
     | _, _ => "bad-op"
   | "T" :: fmt :: bv :: vm :: ra :: nv :: l =>
     match fmt.toNat?, bv.toNat?, vm.toNat?, ra.toNat?, nv.toNat? with
-    | some f, some b, some m, some r, some n => doT f b m r n l
+    | some f, some b, some m, some r, some n => doT false f b m r n l
+    | _, _, _, _, _ => "bad-op"
+  | "G" :: fmt :: bv :: vm :: ra :: nv :: l =>
+    match fmt.toNat?, bv.toNat?, vm.toNat?, ra.toNat?, nv.toNat? with
+    | some f, some b, some m, some r, some n => doT true f b m r n l
     | _, _, _, _, _ => "bad-op"
   | _ => "bad-op"
 
